@@ -826,7 +826,7 @@ def subspace_cases(rng, quick):
                                            {'theta': [1.2, 0.1], 'sa': 4e-12, 'sb': 4e-13, 'basis': 2},
                                            {'theta': [0.7, 0.7], 'sa': 1e-9, 'sb': 3e-15, 'basis': 3},
                                            {'theta': [1e-5, 0.2], 'sa': 1e-15, 'sb': 1e-9, 'basis': 4}])
-    for _ in range(2 if quick else 60):
+    for _ in range(6 if quick else 60):
         cplx = rng.chance(0.5)
         m = rng.randint(2, 8)
         p = rng.randint(1, m // 2)
@@ -880,7 +880,7 @@ def gmd_cases(rng, quick):
         shapes = [(p0, p0), (p0 + 2, p0), (p0, p0 + 1)]
         for j, (m, n) in enumerate(shapes if not quick else [shapes[i % 3]]):
             out.append({'kind': kind, 'm': m, 'n': n, 'cplx': (i + j) % 2 == 0, 'seed': rng.below(2 ** 31), 'S': s, 'tols': tols})
-    for _ in range(2 if quick else 80):
+    for _ in range(6 if quick else 80):
         p0 = rng.randint(2, 6)
         g = 10.0 ** rng.uniform(-12, 9)
         kind = rng.choice(['rel-1e-6', 'below-1e-8', 'tiny', 'adjacent-doubles'])
@@ -954,7 +954,7 @@ def history_cases(rng, quick):
     twice where the routine has two array parameters of one shape)"""
     out = []
     for i, entry in enumerate(ENTRY_NAMES):
-        for rep in range(1 if quick else 6):
+        for rep in range(2 if quick else 6):
             cplx = (entry not in REAL_ONLY) and ((i + rep) % 2 == 0)
             if entry == 'gmd':
                 dims = {'m': rng.randint(2, 5), 'k': 0}
@@ -1042,3 +1042,409 @@ def oracles(ctx, run_oracle, quick):
         ctx.branch('oracle-R16:projection-object')
         if any(o[2] == 'basis-array' for o in case['ops']):
             ctx.branch('oracle-R16:same-object-both-roles')
+
+
+# ================================================================== correspondence with the Lean model
+def _tok_refill(i, x):
+    x = np.atleast_2d(np.asarray(x))
+    return ['R', str(i), str(x.shape[0]), str(x.shape[1]), _B().cline(x)]
+
+
+def _content_seq(rs, shape, cplx, n, mode):
+    """n successive contents of one array: unrelated / close to the previous one / tiny magnitudes"""
+    out = []
+    for t in range(n):
+        if mode == 'close' and out:
+            e = rs.randn(*shape) + (1j * rs.randn(*shape) if cplx else 0)
+            out.append(out[-1] + [1e-6, 1e-9, 1e-12][t % 3] * e)
+        else:
+            x = rs.randn(*shape) + (1j * rs.randn(*shape) if cplx else 0)
+            while min(shape) and np.linalg.cond(x) > 30:
+                x = rs.randn(*shape) + (1j * rs.randn(*shape) if cplx else 0)
+            out.append(x * ([4e-12, 4e-13, 1e-9, 3e-15][t % 4] if mode == 'tiny-magnitude' else 1.0))
+    return out
+
+
+def corr_subspace_history(ctx, drv, seed, mode):
+    """T1: ONE basis array A, ONE second basis B, ONE array M — projector, chordal distance (A, B) and (A, A),
+    a Projection object built from A, A refilled afterwards, project / reflect of M and of A itself"""
+    B = _B()
+    proj, met, _, _ = _impl()
+    rs = _rs(seed, 11)
+    cplx = bool(seed % 2)
+    m = int(rs.randint(2, 7))
+    k = int(rs.randint(1, m))
+    seq_a = _content_seq(rs, (m, k), cplx, 3, mode)
+    seq_b = _content_seq(rs, (m, k), cplx, 2, mode)
+    seq_m = _content_seq(rs, (m, k), cplx, 2, 'fresh')
+    dt = complex if cplx else float
+    buf_a, buf_b, buf_m = (np.zeros((m, k), dtype=dt) for _ in range(3))
+    toks, checks = ['hist', '3'], []       # checks: (kind, impl values, context) per operation, '-' for refills
+
+    def refill(i, buf, x):
+        buf[...] = x
+        toks.extend(_tok_refill(i, x))
+        checks.append(None)
+
+    def do_proj(i, buf):
+        with B.Tap() as tap:
+            p = proj.calcProjectionMatrix(buf)
+        with B.Tap() as tap2:
+            op = proj.calcOrthogonalProjectionMatrix(buf)
+        names = [c[0] for c in tap.log] + [c[0] for c in tap2.log]
+        g = tap.log[0][3] if names == ['inv', 'inv'] else None
+        toks.extend(['proj', str(i), B.cline(g if g is not None else np.eye(k))])
+        checks.append(('proj', names, buf.copy(), g, p, op))
+
+    def do_chord2(i, j, x, y):
+        with B.Tap() as tap:
+            d = float(met.calc_chordal_distance_2(x, y))
+        names = [c[0] for c in tap.log]
+        ga, gb = (tap.log[0][3], tap.log[1][3]) if names == ['inv', 'inv'] else (np.eye(k), np.eye(k))
+        toks.extend(['chord2', str(i), str(j), B.cline(ga), B.cline(gb)])
+        checks.append(('chord2', names, x.copy(), y.copy(), ga, gb, d, i == j))
+
+    def do_apply(i, buf, obj, q_at_construction):
+        pm, rm = obj.project(buf), obj.reflect(buf)
+        toks.extend(['apply', str(i), B.cline(q_at_construction)])
+        checks.append(('apply', q_at_construction, buf.copy(), pm, rm, obj.Q.copy()))
+
+    refill(0, buf_a, seq_a[0])
+    refill(1, buf_b, seq_b[0])
+    do_proj(0, buf_a)
+    do_chord2(0, 1, buf_a, buf_b)
+    refill(0, buf_a, seq_a[1])
+    do_proj(0, buf_a)
+    do_chord2(0, 1, buf_a, buf_b)
+    do_chord2(0, 0, buf_a, buf_a)
+    obj = proj.Projection(buf_a)
+    q0 = obj.Q.copy()
+    refill(2, buf_m, seq_m[0])
+    do_apply(2, buf_m, obj, q0)
+    refill(0, buf_a, seq_a[2])                   # the basis array is reused after the object was built
+    refill(1, buf_b, seq_b[1])
+    do_apply(0, buf_a, obj, q0)                  # ... and handed to the object's own methods
+    refill(2, buf_m, seq_m[1])
+    do_apply(2, buf_m, obj, q0)
+    do_proj(0, buf_a)
+    do_chord2(1, 0, buf_b, buf_a)
+    heap = [buf_a.copy(), buf_b.copy(), buf_m.copy()]
+    return toks, checks, heap, {'template': 'subspace', 'seed': seed, 'mode': mode, 'm': m, 'k': k, 'cplx': cplx}
+
+
+def compare_subspace(ctx, checks, outs, heap, heap_s, case):
+    B = _B()
+    name = 'R16.history:' + case['template']
+    ok_all = True
+    for idx, (chk, out) in enumerate(zip(checks, outs)):
+        key = (name, case['seed'], case['mode'], idx)
+        if chk is None:
+            ok_all &= ctx.corr(name + '.refill', case, '-', out, key=key)
+            continue
+        kind = chk[0]
+        if kind == 'proj':
+            _, names, a, g, p, op = chk
+            if names != ['inv', 'inv']:
+                ok_all &= ctx.corr(name + '.kernel-calls', case, 'call %d: %r' % (idx, names), "call %d: ['inv', 'inv']" % idx, key=key)
+                continue
+            m, k = a.shape
+            p_s, o_s = out.split('|')
+            bound = B.abs3(a, g, H(a))
+            ok1, w1 = B.within(p, B.parse_c(p_s, (m, m)), bound)
+            ok2, w2 = B.within(op, B.parse_c(o_s, (m, m)), bound + np.eye(m))
+            gram = H(a) @ a
+            res = float(np.abs(g @ gram - np.eye(k)).max())
+            if not res <= max(1e-9, 100 * EPS * np.linalg.cond(a) ** 2 * k):
+                ctx.tie_broken('correspondence', 'contract:inv', 'G (A^H A) - I = %.3e in a history on a reused array' % res, case)
+            ok_all &= ctx.corr(name + '.calcProjectionMatrix', case, 'agree' if ok1 and ok2 else 'call %d differs: %s %s' % (idx, w1, w2), 'agree', key=key)
+        elif kind == 'chord2':
+            _, names, a, b, ga, gb, d, same_obj = chk
+            if names != ['inv', 'inv']:
+                ok_all &= ctx.corr(name + '.kernel-calls', case, 'call %d: %r' % (idx, names), "call %d: ['inv', 'inv']" % idx, key=key)
+                continue
+            md = core.s2f(out)
+            bound = float(np.max(B.abs3(a, ga, H(a))) + np.max(B.abs3(b, gb, H(b)))) * a.shape[0]
+            ok = abs(md - d) <= 1e-9 * max(bound, 1.0)
+            ok_all &= ctx.corr(name + '.calc_chordal_distance_2', case, 'agree' if ok else 'call %d differs: impl %r model %r' % (idx, d, md), 'agree', key=key)
+            if same_obj:
+                ctx.branch('corr-R16:same-object-both-roles')
+        elif kind == 'apply':
+            _, q0, x, pm, rm, q_now = chk
+            m = q0.shape[0]
+            if not np.array_equal(q_now, q0):
+                ok_all &= ctx.corr(name + '.Projection.Q', case, 'Q changed after construction (call %d)' % idx, 'Q as at construction', key=key)
+                continue
+            pr_s, rf_s = out.split('|')
+            ok1, w1 = B.within(pm, B.parse_c(pr_s, x.shape), np.abs(q0) @ np.abs(x))
+            ok2, w2 = B.within(rm, B.parse_c(rf_s, x.shape), (np.eye(m) + 2 * np.abs(q0)) @ np.abs(x))
+            ok_all &= ctx.corr(name + '.Projection.project/reflect', case, 'agree' if ok1 and ok2 else 'call %d differs: %s %s' % (idx, w1, w2), 'agree', key=key)
+            ctx.branch('corr-R16:projection-object')
+    return ok_all
+
+
+def corr_generic_history(ctx, drv, seed, template):
+    """T2 update_inv_sum_diag(inv, d) / T3 gmd(U, S, V_H) incl. gmd(U, S, U) / T4 the conversions — ONE array per
+    parameter, refilled in place between the calls"""
+    B = _B()
+    _, _, misc, conv = _impl()
+    rs = _rs(seed, 13)
+    cplx = bool(seed % 2) and template != 'conv'
+    n = int(rs.randint(2, 5))
+    toks, checks = ['hist', '3'], []
+    dt = complex if cplx else float
+    if template == 'uisd':
+        bufs = [np.zeros((n, n), dtype=dt), np.zeros(n, dtype=float), np.zeros((1, 1))]
+        for t in range(4):
+            if t in (0, 2):
+                x = rs.randn(n, n + 2) + (1j * rs.randn(n, n + 2) if cplx else 0)
+                c = x @ H(x) + np.eye(n)
+                bufs[0][...] = np.linalg.inv((c + H(c)) / 2)
+                toks.extend(_tok_refill(0, bufs[0]))
+                checks.append(None)
+            d = rs.uniform(0.5, 2.0, size=n) if t != 1 else bufs[1] * (1 + 1e-6)      # R15: a close diagonal
+            bufs[1][...] = d
+            toks.extend(_tok_refill(1, bufs[1]))
+            checks.append(None)
+            with B.Tap() as tap:
+                out = misc.update_inv_sum_diag(bufs[0], bufs[1])
+            toks.extend(['uisd', '0', '1'])
+            checks.append(('uisd', bufs[0].copy(), bufs[1].copy(), out, len(tap.log)))
+    elif template == 'gmd':
+        bufs = [np.zeros((n, n), dtype=dt), np.zeros(n), np.zeros((n, n), dtype=dt)]
+        for t in range(4):
+            same_obj = t >= 2
+            u = unitary(rs, n, cplx)
+            s = np.sort(rs.uniform(0.5, 3.0, size=n))[::-1]
+            bufs[0][...] = u
+            bufs[1][...] = s
+            toks.extend(_tok_refill(0, bufs[0]) + _tok_refill(1, bufs[1]))
+            checks.extend([None, None])
+            if not same_obj:
+                bufs[2][...] = unitary(rs, n, cplx)
+                toks.extend(_tok_refill(2, bufs[2]))
+                checks.append(None)
+            vh = bufs[0] if same_obj else bufs[2]
+            q, r, pm = misc.gmd(bufs[0], bufs[1], vh)
+            sb = float(math.exp(np.mean(np.log(s)).item()))
+            toks.extend(['gmd', '0', '1', '0' if same_obj else '2', str(n), core.f2s(sb)])
+            checks.append(('gmd', s.copy(), q, r, pm, same_obj))
+    else:
+        k = int(rs.randint(2, 6))
+        bufs = [np.zeros(k), np.array(1), np.zeros((1, 1))]
+        for t, nm in enumerate(['lin2db', 'db2lin', 'snr2ebn0', 'lin2dbm', 'dbm2lin', 'ebn02snr', 'lin2db', 'db2lin']):
+            if nm.startswith('lin'):
+                vals = 10.0 ** rs.uniform(-12, 12, size=k) if t < 6 else np.array([1 + 1e-9, 1 - 1e-12, up(1.0), 4e-13, 2.4e9 + 2e4, 1.0][:k])
+            else:
+                vals = rs.uniform(-120, 120, size=k) if t < 6 else np.array([1e-9, -3e-15, up(30.0), 0.0, 93.8000362, 1e-12][:k])
+            bufs[0][...] = vals
+            toks.extend(_tok_refill(0, bufs[0]))
+            checks.append(None)
+            if nm in ('snr2ebn0', 'ebn02snr'):
+                bufs[1][...] = int(rs.randint(1, 11))
+                toks.extend(_tok_refill(1, bufs[1]))
+                checks.append(None)
+                fn = conv.SNR_dB_to_EbN0_dB if nm == 'snr2ebn0' else conv.EbN0_dB_to_SNR_dB
+                out = fn(bufs[0], bufs[1])
+                toks.extend([nm, '0', '1'])
+                checks.append(('conv', nm, bufs[0].copy(), int(bufs[1]), np.asarray(out)))
+            else:
+                fn = {'lin2db': conv.linear2dB, 'db2lin': conv.dB2Linear, 'lin2dbm': conv.linear2dBm, 'dbm2lin': conv.dBm2Linear}[nm]
+                out = fn(bufs[0])
+                toks.extend([nm, '0'])
+                checks.append(('conv', nm, bufs[0].copy(), None, np.asarray(out)))
+    nb = 3 if template == 'gmd' else 2
+    toks[1] = str(nb)
+    heap = [np.array(b, copy=True) for b in bufs[:nb]]
+    return toks, checks, heap, {'template': template, 'seed': seed, 'n': n, 'cplx': cplx}
+
+
+CONV_NAMES = {'lin2db': 'linear2dB', 'db2lin': 'dB2Linear', 'lin2dbm': 'linear2dBm', 'dbm2lin': 'dBm2Linear',
+              'snr2ebn0': 'SNR_dB_to_EbN0_dB', 'ebn02snr': 'EbN0_dB_to_SNR_dB'}
+
+
+def compare_generic(ctx, checks, outs, case):
+    B = _B()
+    name = 'R16.history:' + case['template']
+    for idx, (chk, out) in enumerate(zip(checks, outs)):
+        key = (name, case['seed'], idx)
+        if chk is None:
+            ctx.corr(name + '.refill', case, '-', out, key=key)
+            continue
+        if chk[0] == 'uisd':
+            _, inv_a, d, res, ncalls = chk
+            n = inv_a.shape[0]
+            if out.startswith('error'):
+                ctx.corr(name + '.update_inv_sum_diag', case, 'value', out, key=key)
+                continue
+            mo = B.parse_c(out, (n, n))
+            piv, cur = [], np.array(inv_a, dtype=complex)
+            for i, di in enumerate(d):
+                piv.append(1 + di * cur[i, i])
+                cur = cur - di * np.outer(cur[:, i], cur[i, :]) / piv[-1]
+            scale = nz(max(float(np.abs(inv_a).max()), float(np.abs(res).max()))) * max(1.0, float(np.max(1 / np.abs(piv))))
+            ok, why = B.within(res, mo, scale * np.ones((n, n)))
+            ctx.corr(name + '.update_inv_sum_diag', case, 'agree' if ok and not ncalls else 'call %d differs: %s (kernel calls %d)' % (idx, why, ncalls), 'agree', key=key)
+        elif chk[0] == 'gmd':
+            _, s, q, r, pm, same_obj = chk
+            n = s.size
+            if out.startswith('error'):
+                ctx.corr(name + '.gmd', case, 'value', out, key=key)
+                continue
+            q_s, r_s, p_s, mg_s = out.split('|')
+            if same_obj:
+                ctx.branch('corr-R16:same-object-both-roles')
+            if not core.s2f(mg_s) >= 1e-6:
+                ctx.branch('gmd:ill-conditioned-rotation-skipped')
+                continue
+            scale = max(1.0, float(s[0] / s[-1])) / core.s2f(mg_s)
+            ok1, w1 = B.within(q, B.parse_c(q_s, (n, n)), scale * np.ones((n, n)), rtol=1e-11)
+            ok2, w2 = B.within(r, B.parse_c(r_s, (n, n)), scale * float(s[0]) * np.ones((n, n)), rtol=1e-11)
+            ok3, w3 = B.within(pm, B.parse_c(p_s, (n, n)), scale * np.ones((n, n)), rtol=1e-11)
+            ctx.corr(name + '.gmd', case, 'agree' if ok1 and ok2 and ok3 else 'call %d differs: Q %s R %s P %s' % (idx, w1, w2, w3), 'agree', key=key)
+        else:
+            _, nm, vals, b, res = chk
+            mv = B.parse_f(out)
+            full = CONV_NAMES[nm]
+            ok = res.shape == vals.shape and mv.shape == vals.shape
+            why = 'shape'
+            if ok:
+                for v, g, mdl in zip(vals, res, mv):
+                    if not abs(float(g) - mdl) <= 4 * conv_tol(full, float(v), mdl, b):
+                        ok, why = False, '%s(%r) impl %r model %r' % (full, float(v), float(g), mdl)
+                        break
+            ctx.corr(name + '.' + full, case, 'agree' if ok else 'call %d differs: %s' % (idx, why), 'agree', key=key)
+
+
+def _heap_repr(heap):
+    B = _B()
+    out = []
+    for b in heap:
+        x = np.atleast_2d(np.asarray(b))
+        out.append('%dx%d:%s' % (x.shape[0], x.shape[1], '' if x.size == 0 else B.cline(x)))
+    return ';'.join(out)
+
+
+def corr_histories(ctx, drv, quick):
+    runs = []
+    n = 3 if quick else 40
+    for mode in ('fresh', 'close', 'tiny-magnitude'):
+        for t in range(n):
+            runs.append(corr_subspace_history(ctx, drv, 1000 * ctx.seed + 10 * t + len(mode), mode))
+    for template in ('uisd', 'gmd', 'conv'):
+        for t in range(n):
+            runs.append(corr_generic_history(ctx, drv, 1000 * ctx.seed + 10 * t + len(template), template))
+    replies = drv.ask([' '.join(r[0]) for r in runs])
+    for (toks, checks, heap, case), rep in zip(runs, replies):
+        if ' # ' not in rep:
+            ctx.corr('R16.history:' + case['template'], case, 'values', rep)
+            continue
+        outs_s, heap_s = rep.split(' # ')
+        outs = outs_s.split(';')
+        if len(outs) != len(checks):
+            ctx.corr('R16.history:' + case['template'], case, '%d operations' % len(checks), '%d results' % len(outs))
+            continue
+        # calls never write to the caller's arrays: the real arrays after the history = the model heap
+        ctx.corr('R16.history:%s.arrays-after' % case['template'], case, _heap_repr(heap), heap_s,
+                 key=('r16heap', case['template'], case['seed'], case.get('mode')))
+        if case['template'] == 'subspace':
+            compare_subspace(ctx, checks, outs, heap, heap_s, case)
+            if case['mode'] == 'close':
+                ctx.branch('corr-R15:close-contents')
+            elif case['mode'] == 'tiny-magnitude':
+                ctx.branch('corr-R15:tiny-magnitude')
+        else:
+            compare_generic(ctx, checks, outs, case)
+        ctx.branch('corr-R16:buffer-refilled-in-place')
+        ctx.branch('corr-R16:history:' + case['template'])
+
+
+def corr_r15_values(ctx, drv, quick):
+    """close-but-distinct values through the single-call model operations: principal angles of subspaces a tiny
+    angle apart (tapped singular values -> `angles`), eigenvalue selection on close spectra (tapped argsort ->
+    `peig` / `leig`), the conversions next to 1 / 0 (strictly relative comparison)"""
+    B = _B()
+    _, met, misc, conv = _impl()
+    rng = ctx.rng.fork('r15corr')
+    lines, items = [], []
+    for case in subspace_cases(rng, quick):
+        for st in case['steps']:
+            a, b, _, _, th = subspace_pair(case, st)
+            with B.Tap() as tap:
+                ang = met.calc_principal_angles(a, b)
+            names = [c[0] for c in tap.log]
+            if names != ['qr', 'qr', 'svd']:
+                ctx.corr('R15.calc_principal_angles.kernel-calls', {'kind': case['kind']}, repr(names), "['qr', 'qr', 'svd']")
+                continue
+            sv = tap.log[2][3][1]
+            d3 = float(met.calc_chordal_distance_from_principal_angles(ang))
+            lines.append('angles %s' % B.fline(sv))
+            items.append(('angles', case['kind'], th.tolist(), np.asarray(ang, dtype=float), d3))
+    for case in eigen_cases(rng, quick):
+        w = np.array(case['w'])
+        n = w.size
+        u = unitary(_rs(case['seed']), n, bool(case['cplx']))
+        a = (u * w) @ H(u)
+        a = (a + H(a)) / 2
+        for which, fn in (('peig', misc.peig), ('leig', misc.leig)):
+            k = 1 + (case['seed'] % n)
+            with B.Tap() as tap:
+                v, d = fn(a, k)
+            names = [c[0] for c in tap.log]
+            ok_args = names == ['eig', 'argsort'] and np.array_equal(tap.log[0][1][0], a) and np.array_equal(tap.log[1][1][0], tap.log[0][3][0].real)
+            if not ok_args:
+                ctx.corr('R15.%s.kernel-arguments' % which, {'kind': case['kind'], 'w': case['w']}, 'other: %r' % names, 'eig(A),argsort(D.real)')
+                continue
+            perm = tap.log[1][3].tolist()
+            lines.append('%s %d %d %s' % (which, n, k, ','.join(map(str, perm))))
+            items.append(('select', case['kind'], case['w'], which, v, d, tap.log[0][3]))
+    for case in conversion_cases():
+        for x in case['xs']:
+            for op, nm in (('lin2db', 'linear2dB'), ('lin2dbm', 'linear2dBm')):
+                lines.append('%s %s' % (op, core.f2s(x)))
+                items.append(('conv', case['kind'], nm, x, None, float(getattr(conv, nm)(x))))
+        for y in case['ys']:
+            for op, nm in (('db2lin', 'dB2Linear'), ('dbm2lin', 'dBm2Linear')):
+                lines.append('%s %s' % (op, core.f2s(y)))
+                items.append(('conv', case['kind'], nm, y, None, float(getattr(conv, nm)(y))))
+            b = case['bits'][0]
+            lines.append('snr2ebn0 %s %s' % (core.f2s(y), core.f2s(float(b))))
+            items.append(('conv', case['kind'], 'SNR_dB_to_EbN0_dB', y, b, float(conv.SNR_dB_to_EbN0_dB(y, b))))
+    out = drv.ask(lines)
+    for i, (it, rep) in enumerate(zip(items, out)):
+        if it[0] == 'angles':
+            _, kind, th, ang, d3 = it
+            a_s, d_s = rep.split('|')
+            mang = B.parse_f(a_s)
+            ok = mang.shape == ang.shape and bool(np.all(np.abs(mang - ang) <= 64 * EPS * np.maximum(np.abs(mang), np.abs(ang))))
+            ctx.corr('R15.calc_principal_angles', {'kind': kind, 'theta': th}, 'agree' if ok else 'differs: impl %r model %r' % (ang.tolist(), mang.tolist()),
+                     'agree', key=('r15ang', kind, i))
+            md3 = core.s2f(d_s)
+            ok = abs(md3 - d3) <= 64 * EPS * max(abs(md3), abs(d3))
+            ctx.corr('R15.calc_chordal_distance_from_principal_angles', {'kind': kind, 'theta': th},
+                     'agree' if ok else 'differs: impl %r model %r' % (d3, md3), 'agree', key=('r15angd', kind, i))
+            ctx.branch('corr-R15:angles')
+        elif it[0] == 'select':
+            _, kind, w, which, v, d, (dvals, vmat) = it
+            idx = [int(t) for t in rep.split(',')] if rep and not rep.startswith('error') else None
+            ok = idx is not None and np.array_equal(v, vmat[:, idx]) and np.array_equal(d, dvals[idx])
+            ctx.corr('R15.' + which, {'kind': kind, 'w': w}, 'V[:,idx],D[idx] idx=%s' % idx if ok else 'differs', 'V[:,idx],D[idx] idx=%s' % idx,
+                     key=('r15sel', kind, i))
+            ctx.branch('corr-R15:selectors')
+        else:
+            _, kind, nm, v, b, got = it
+            mv = core.s2f(rep)
+            ok = abs(got - mv) <= 4 * conv_tol(nm, v, mv, b)
+            ctx.corr('R15.' + nm, {'kind': kind, 'value': v, 'bits': b}, 'agree' if ok else 'differs: impl %r model %r' % (got, mv), 'agree',
+                     key=('r15conv', nm, kind, i))
+            ctx.branch('corr-R15:conversions')
+
+
+CORR_BRANCHES = ['corr-R16:buffer-refilled-in-place', 'corr-R16:same-object-both-roles', 'corr-R16:projection-object',
+                 'corr-R16:history:subspace', 'corr-R16:history:uisd', 'corr-R16:history:gmd', 'corr-R16:history:conv',
+                 'corr-R15:close-contents', 'corr-R15:tiny-magnitude', 'corr-R15:angles', 'corr-R15:selectors', 'corr-R15:conversions']
+
+
+def correspondence(ctx, quick):
+    drv = core.Driver(DRIVER)
+    corr_histories(ctx, drv, quick)
+    corr_r15_values(ctx, drv, quick)
